@@ -239,3 +239,98 @@ package common
 //@   loop 2 invariant rangeindex < len(required)
 //@   loop 2 invariant forall k Blake2b224 :: k in vkeyHashes ==> vkOwned(tx, k)
 //@   loop 2 invariant forall i int :: 0 <= i && i < len(rs) && i <= rangeindex ==> vkOwned(tx, rs[i])
+
+// BEGIN generated C01 contracts (tools/gen_c01_contracts.py in /verif)
+// C01: a decoder that keeps its input stores exactly the bytes it was given; an identifier
+// is Blake2b-256 of the stored bytes (the cache, when set, holds that hash).
+//@ func (c *StakeRegistrationCertificate) UnmarshalCBOR(cborData) (err)
+//@   props C01
+//@   attr maxpaths 4000
+//@   attr safe off
+//@   requires recv: c != nil
+//@   ensures stored: err == nil ==> seq(c.cborData) == seq(cborData) && len(c.cborData) == len(cborData)
+
+//@ func (c *StakeDeregistrationCertificate) UnmarshalCBOR(cborData) (err)
+//@   props C01
+//@   attr maxpaths 4000
+//@   attr safe off
+//@   requires recv: c != nil
+//@   ensures stored: err == nil ==> seq(c.cborData) == seq(cborData) && len(c.cborData) == len(cborData)
+
+//@ func (c *StakeDelegationCertificate) UnmarshalCBOR(cborData) (err)
+//@   props C01
+//@   attr maxpaths 4000
+//@   attr safe off
+//@   requires recv: c != nil
+//@   ensures stored: err == nil ==> seq(c.cborData) == seq(cborData) && len(c.cborData) == len(cborData)
+
+//@ func (c *PoolRegistrationCertificate) UnmarshalCBOR(cborData) (err)
+//@   props C01
+//@   attr maxpaths 4000
+//@   attr safe off
+//@   requires recv: c != nil
+//@   ensures stored: err == nil ==> seq(c.cborData) == seq(cborData) && len(c.cborData) == len(cborData)
+
+//@ func (c *PoolRetirementCertificate) UnmarshalCBOR(cborData) (err)
+//@   props C01
+//@   attr maxpaths 4000
+//@   attr safe off
+//@   requires recv: c != nil
+//@   ensures stored: err == nil ==> seq(c.cborData) == seq(cborData) && len(c.cborData) == len(cborData)
+
+//@ func (c *GenesisKeyDelegationCertificate) UnmarshalCBOR(cborData) (err)
+//@   props C01
+//@   attr maxpaths 4000
+//@   attr safe off
+//@   requires recv: c != nil
+//@   ensures stored: err == nil ==> seq(c.cborData) == seq(cborData) && len(c.cborData) == len(cborData)
+
+//@ func (c *Credential) UnmarshalCBOR(cborData) (err)
+//@   props C01
+//@   attr maxpaths 4000
+//@   attr safe off
+//@   requires recv: c != nil
+//@   ensures stored: err == nil ==> seq(c.cborData) == seq(cborData) && len(c.cborData) == len(cborData)
+
+//@ func (v *LeiosVote) UnmarshalCBOR(cborData) (err)
+//@   props C01
+//@   attr maxpaths 4000
+//@   attr safe off
+//@   requires recv: v != nil
+//@   ensures stored: err == nil ==> seq(v.cborData) == seq(cborData) && len(v.cborData) == len(cborData)
+
+//@ func (b *LeiosEndorserBlock) UnmarshalCBOR(cborData) (err)
+//@   props C01
+//@   attr maxpaths 4000
+//@   attr safe off
+//@   requires recv: b != nil
+//@   ensures stored: err == nil ==> seq(b.cborData) == seq(cborData) && len(b.cborData) == len(cborData)
+
+//@ func (b *TransactionBodyBase) Id() (r)
+//@   props C01
+//@   requires recv: b != nil
+//@   requires cache: b.hash == nil || *b.hash == H256(seq(b.cborData))
+//@   assigns b.hash
+//@   ensures id: r == H256(seq(b.cborData))
+//@   ensures cache: b.hash != nil && *b.hash == H256(seq(b.cborData))
+
+// Metadata decoding helpers: their bodies are not needed for C01; callers forget the heap.
+//@ func DecodeAuxiliaryData(raw) (aux, err)
+//@   nobody
+//@ func DecodeAuxiliaryDataToMetadata(raw) (md, err)
+//@   nobody
+// END generated C01 contracts
+
+// C01: the byte range handed to the per-item setter is the range the stream decoder reported for
+// that item, placed after the array header that is actually present (1 byte for an indefinite-length
+// array, otherwise the size of the definite header in the bytes - never a size recomputed from the
+// item count).
+//@ func setArrayItemCbor(arrayData, expectedCount, setItemCbor) (err)
+//@   props C01
+//@   attr trackcalls on
+//@   attr safe off
+//@   callback setItemCbor requires index: 0 <= arg0 && arg0 < expectedCount
+//@   callback setItemCbor requires range: len(arrayData) > 0 && called(Skip) && callres(Skip, 2) == nil &&
+//@       arg1 == subslice(arrayData, ite(old(arrayData[0]) == 159, int(1), hdrLen(old(arrayData[0]))) + callres(Skip, 0),
+//@                        ite(old(arrayData[0]) == 159, int(1), hdrLen(old(arrayData[0]))) + callres(Skip, 0) + callres(Skip, 1))
+//@   loop 0 invariant itemIndex >= 0
